@@ -261,10 +261,13 @@ theorem size_gate_inside (gates : List Gate) (hm : sizeTest ∈ gates) (hasData 
   have b : ¬ (dy < 0 ∨ dx < 0) := by omega
   simp [a, b]
 
-/-- **The gates of the source** (regenerated, structured): `KittyImage.Draw` tests "still encoding" and the size;
-    `Sixel.Draw` tests "no data", "still encoding" and the size.  No condition is unknown to the extractor. -/
+/-- **The gates of the source** (regenerated, structured; order-independent): every leading `if … { return }` of
+    `KittyImage.Draw` and of `Sixel.Draw` is one the extractor knows — "no data", "still encoding" or the size test
+    exactly as `X.w > w || X.h > h` —, both methods have the size test, and only `Sixel.Draw` tests for data. -/
 theorem draw_gates_shape :
-    kittyGates = [.encoding, sizeTest] ∧ sixelGates = [.noData, .encoding, sizeTest] := by decide
+    (∀ g ∈ kittyGates ++ sixelGates, g = .noData ∨ g = .encoding ∨ g = sizeTest) ∧
+    sizeTest ∈ kittyGates ∧ sizeTest ∈ sixelGates ∧ Gate.encoding ∈ kittyGates ∧ Gate.encoding ∈ sixelGates ∧
+    Gate.noData ∈ sixelGates ∧ Gate.noData ∉ kittyGates := by decide
 
 theorem sixel_placement_inside (sw sh : Int) (win : VaxisModel.Model.Window.Win) (hd : sixelDrawn sw sh win = true) :
     placementInside sw sh win ∧
@@ -344,7 +347,16 @@ theorem fitting_drawn (p : Proto) (iw ih : Int) (win : VaxisModel.Model.Window.W
   obtain ⟨hw, hh⟩ := h
   have a : ¬ (iw > win.width) := by omega
   have b : ¬ (ih > win.height) := by omega
-  cases p <;> simp [Proto.gates, draw_gates_shape.1, draw_gates_shape.2, drawnWith, gateFires, connBool, cmpInt, a, b]
+  have hk : ∀ g ∈ p.gates, g = .noData ∨ g = .encoding ∨ g = sizeTest := by
+    intro g hg
+    apply draw_gates_shape.1 g
+    cases p
+    · exact List.mem_append_left _ hg
+    · exact List.mem_append_right _ hg
+  unfold drawnWith
+  rw [List.all_eq_true]
+  intro g hg
+  rcases hk g hg with rfl | rfl | rfl <;> simp [gateFires, connBool, cmpInt, a, b]
 
 /-! ## Upload bookkeeping of kitty images -/
 
